@@ -117,6 +117,26 @@ func (x *Exec) call(fr *frame, st *State, c *ssa.CallCommon, pos token.Pos, inst
 		return x.callStatic(fr, st, fv.Clo.Fn, args, fv.Clo.Bindings, pos)
 	}
 	x.safetyObl(fr, st, "nil", pos, Not(Eq(fv.T, intLit64(0))), "call of nil function")
+	if x.fc != nil && fr.depth == 0 && len(x.fc.CallPre["dyn"]) > 0 {
+		// rules for calls through a function value ("callpre dyn: ..."): evaluated in the caller's state
+		ord := x.callOrdinal(fr, "dyn", pos)
+		site := fmt.Sprintf("%scall dyn#%d", fr.prefix, ord)
+		p := x.pos(pos)
+		pre := st.clone()
+		for j, cp := range x.fc.CallPre["dyn"] {
+			cenv := x.specEnv(fr, pre, nil)
+			cenv.pol = -1
+			t, err := x.evalBool(cp.Expr, cenv)
+			if err != nil {
+				return Val{}, fmt.Errorf("%s:%d: callpre dyn: %w", cp.File, cp.Line, err)
+			}
+			if j == 0 && vc.dry == 0 {
+				vc.obls = append(vc.obls, &Obligation{Name: fmt.Sprintf("cover/%s/dyn", site), Kind: "cover", Goal: Not(st.pc), TraceLen: len(vc.trace), Pos: p, ExpectSat: true,
+					Text: "call site reachable: dynamic call", Func: x.fc.Key(), Claimed: true})
+			}
+			x.vc.oblige("call-pre", fmt.Sprintf("%s/callpre#%d", site, j), st.pc, t, p, fmt.Sprintf("rule at the call through a function value: %s (%s:%d)", cp.Text, shortFile(p.Filename), p.Line))
+		}
+	}
 	vc.noteHavoc("dynamic call at " + x.pos(pos).String())
 	return x.havocCall(st, sig, "dyn"), nil
 }
